@@ -71,6 +71,7 @@ def c15(c):
             c.sample_events(files, 3)
         for f in files:
             os.remove(f)
+    c.count_classes(misc_run(c, "c15"), misc_class)       # LexicographicallyLargest, Cmp, big.Int conversions (spec/core/Misc.tla)
     if not quick:
         c.extra["complete_cross_product"] = "mul: all 7^4 x 7^4 = 5,764,801 pairs of limb-class words, in 8 bands; add/sub/div: 7^4 x 3^4 pairs"
     return c.finish(rule="one event per (operation, operand pair); operands: all 7^4 limb-class words of the raw Montgomery representation "
@@ -89,6 +90,32 @@ def c16(c):
     c.sample_events(files, 3)
     return c.finish(rule="one event per (decoder/encoder, length 0..64, value class); value classes 0,1,255,256,r-1,r,r+1,2r,p-1,p,2^255,2^256-1,all-ones,msb-only,lsb-only,random; "
                          "each decode is done twice on the same buffer and the buffer is compared before/after; distinct = distinct (function, value class, length)", min_events=100)
+
+
+# ------------------------------------------------------------------------------------------ misc family (behaviour outside the listed properties' main paths)
+
+def misc_class(e):
+    return ("misc", e["kind"], e["n"], e["w"], e["val"], e["val2"], e["k"])
+
+
+def misc_run(c, part):
+    progs = c.generate("Gen_Misc", name="prog-misc-" + part, env={"VERIF_PART": part})
+    files = c.drive("misc", progs, name="tr-misc-" + part, shards=vlib.NCPU)
+    c.validate("Trace_Misc", files)
+    return files
+
+
+@check("AUX")
+def aux(c):
+    c.small("MC_Misc", cfg="MC_Misc.cfg")
+    files = misc_run(c, "all")
+    need = ["powers", "crs", "precomp", "ext", "unsafe", "oncurve", "uncio", "proofeq", "fr/lex", "fr/cmp", "fr/bit", "fr/bigint", "fr/string", "fr/iface", "fr/random"]
+    missing = [k for k in need if c.judged.get(k, 0) == 0]
+    c.guard(not missing, "misc kinds without any member: %s" % missing)
+    c.count_classes(files, misc_class)
+    c.sample_events(files, 2)
+    return c.finish(rule="one event per (kind, parameters, seeded member): PowersOf, GenerateRandomPoints, PrecompPoint with window sizes 1,2,4,8,16 and invalid ones, extended-coordinate helpers, "
+                         "SetBytesUnsafe, IsOnCurve, uncompressed affine I/O, proof equality under single-component changes, scalar-field inspection/conversion helpers", min_events=100)
 
 
 # ------------------------------------------------------------------------------------------ group family
@@ -279,6 +306,8 @@ def c05(c):
     c.guard(not missing, "classes without any member: %s" % missing)
     c.count_classes(files, lambda e: (e["ev"], e.get("cls"), tuple(e.get("idx") or ()), json.dumps(e.get("vals", 0))[:80], e.get("pos"), e.get("win")) if e["ev"] != "config" else None)
     c.sample_events(files, 2, keep=lambda e: e["ev"] == "commit" and e["cls"].startswith("digit"))
+    # GenerateRandomPoints for other lengths, PrecompPoint with every window size, the extended-coordinate helpers (spec/core/Misc.tla)
+    c.count_classes(misc_run(c, "c05"), misc_class)
     return c.finish(rule="digit-class programs (basis position class x window index x digit class {0,1,half-1,half,half+1,max-1,max} x carry-chain length {0,1,2,5} x rest zero/random), "
                          "vector classes (random, ones, r-1, single hot coefficient, first five, small, empty) x lengths {0,1,5,6,255,256}, linearity programs, table rows read through the hook, "
                          "and the CRS derivation; distinct = distinct (kind, class, indices, values)", min_events=500)
@@ -442,6 +471,7 @@ def c10(c):
     c.guard(not missing, "classes without any member: %s" % missing)
     c.count_classes(files, proof_class)
     proof_sample(c, files, ("read", "write"))
+    c.count_classes(misc_run(c, "c10"), misc_class)      # MultiProof.Equal / IPAProof.Equal (spec/core/Misc.tla)
     return c.finish(rule="byte-string classes (valid, short, empty, trailing, scalar = r-1/r/r+1/2^256-1, point at each position replaced by x+p / non-subgroup / off-curve / other valid, "
                          "bit flip, random) x reader behaviours (whole, 1 byte, 7, 32, 33 bytes at a time, EOF together with the last chunk, injected error at offset k) for MultiProof.Read and "
                          "IPAProof.Read; writer failing at each call; distinct = distinct (source, byte class, reader class, data prefix)", min_events=200)
